@@ -1,6 +1,7 @@
 package flow
 
 import (
+	"os"
 	"fmt"
 	"go/ast"
 	"go/constant"
@@ -28,6 +29,7 @@ type Canon struct {
 	// decides per use whether the definition may be substituted (all callees deterministic observers, nothing in
 	// between that changes what they read).
 	obsCand map[types.Object]ast.Expr
+	pureCand map[types.Object]bool
 	ObsOK   func(o types.Object, def ast.Expr, use *ast.Ident) bool
 	// Inline, when set, gives the formula a boolean helper call stands for (nil: keep the call as an atom).
 	Inline func(call *ast.CallExpr) *F
@@ -498,9 +500,15 @@ func (c *Canon) scanLocals(body *ast.BlockStmt) {
 				}
 			}
 		}
-		if e, ok := single[o]; ok && c.pureExpr(e) && !mutableOperand(e) {
+		if e, ok := single[o]; ok && c.pureExpr(e) && !mutableOperand(e) && !(PureRegion && c.readsMemory(e)) {
 			c.expand[o] = e
 		} else if ok {
+			if c.pureExpr(e) {
+				if c.pureCand == nil {
+					c.pureCand = map[types.Object]bool{}
+				}
+				c.pureCand[o] = true
+			}
 			c.obsCand[o] = e
 		} else if _, isTup := tup[o]; isTup {
 			if c.tupleCand == nil {
@@ -514,6 +522,35 @@ func (c *Canon) scanLocals(body *ast.BlockStmt) {
 // pureExpr: no calls (conversions, len and cap excepted), receives, literals with identity. Only such
 // definitions are substituted for a local; two locals defined by the same impure expression
 // (time.Now(), make(chan T)) are different values and keep their own names.
+// PureRegion: call-free definitions that read memory (a field, an element, through a pointer) go through the region check.
+var PureRegion = os.Getenv("ZR_PURE_REGION") != "0"
+
+// PureCand: o is defined once by a call-free expression that is expanded subject to the region check.
+func (c *Canon) PureCand(o types.Object) bool { return c.pureCand[o] }
+
+// readsMemory: e reads a field, an element or through a pointer (not just locals, constants and package-level names).
+func (c *Canon) readsMemory(e ast.Expr) bool {
+	hit := false
+	ast.Inspect(e, func(n ast.Node) bool {
+		switch x := n.(type) {
+		case *ast.SelectorExpr:
+			if sel := c.Info.Selections[x]; sel != nil && sel.Kind() == types.FieldVal {
+				hit = true
+			}
+		case *ast.IndexExpr:
+			if tv, ok := c.Info.Types[x.X]; ok && tv.IsValue() {
+				hit = true
+			}
+		case *ast.StarExpr:
+			if tv, ok := c.Info.Types[x.X]; ok && tv.IsValue() {
+				hit = true
+			}
+		}
+		return !hit
+	})
+	return hit
+}
+
 func (c *Canon) pureExpr(e ast.Expr) bool {
 	pure := true
 	ast.Inspect(e, func(n ast.Node) bool {
